@@ -46,6 +46,38 @@ type freshCtx struct {
 	p    *Prog
 	memo map[*ssa.Function]int // 0 unknown, 1 in progress, 2 fresh, 3 not
 	why  string
+
+	paramBusy map[paramKey]bool
+}
+
+type paramKey struct {
+	fn *ssa.Function
+	i  int
+}
+
+// originsLocalValues: phi/conversion closure of v within its function.
+func (p *Prog) originsLocalValues(v ssa.Value) []ssa.Value {
+	seen := map[ssa.Value]bool{}
+	var out []ssa.Value
+	var walk func(v ssa.Value)
+	walk = func(v ssa.Value) {
+		if v == nil || seen[v] {
+			return
+		}
+		seen[v] = true
+		switch t := v.(type) {
+		case *ssa.Phi:
+			for _, e := range t.Edges {
+				walk(e)
+			}
+		case *ssa.ChangeType:
+			walk(t.X)
+		default:
+			out = append(out, v)
+		}
+	}
+	walk(v)
+	return out
 }
 
 func (p *Prog) newFresh() *freshCtx { return &freshCtx{p: p, memo: map[*ssa.Function]int{}} }
@@ -449,6 +481,52 @@ func (f *freshCtx) escapes(v ssa.Value, seen map[ssa.Value]bool) string {
 						if e := f.escapes(val, seen); e != "" {
 							return e
 						}
+					}
+					continue
+				}
+			}
+			// a module function that neither retains nor publishes the argument leaves it fresh
+			if callee := cc.StaticCallee(); callee != nil && !cc.IsInvoke() && f.p.InModuleFn(callee) {
+				if _, isGo := t.(*ssa.Go); !isGo {
+					bad := ""
+					for i, arg := range cc.Args {
+						if arg != v || i >= len(callee.Params) {
+							continue
+						}
+						key := paramKey{callee, i}
+						if f.paramBusy == nil {
+							f.paramBusy = map[paramKey]bool{}
+						}
+						if f.paramBusy[key] {
+							continue
+						}
+						f.paramBusy[key] = true
+						e := f.escapes(callee.Params[i], map[ssa.Value]bool{})
+						returned := false
+						funcInstrs(callee, func(in ssa.Instruction) {
+							if rt, ok := in.(*ssa.Return); ok {
+								for _, res := range rt.Results {
+									for _, o := range f.p.originsLocalValues(res) {
+										if o == ssa.Value(callee.Params[i]) {
+											returned = true
+										}
+									}
+								}
+							}
+						})
+						delete(f.paramBusy, key)
+						if e != "" {
+							bad = "passed to " + calleeName(cc) + " which lets it escape (" + e + ")"
+						} else if returned {
+							if val, ok := t.(ssa.Value); ok {
+								if e2 := f.escapes(val, seen); e2 != "" {
+									bad = e2
+								}
+							}
+						}
+					}
+					if bad != "" {
+						return bad
 					}
 					continue
 				}
